@@ -676,8 +676,34 @@ func (a *Adjudicator) Progress(context.Context, channel.ProgressReq) error {
 func sameState(a, b *channel.State) bool { return a != nil && b != nil && a.Equal(b) == nil }
 
 // Withdraw implements channel.Withdrawer.
-func (a *Adjudicator) Withdraw(_ context.Context, req channel.AdjudicatorReq, subStates channel.StateMap) error {
+func (a *Adjudicator) Withdraw(ctx context.Context, req channel.AdjudicatorReq, subStates channel.StateMap) error {
 	l := a.Ledger
+	// Like a real adjudicator backend, Withdraw waits for the end of the challenge period of a
+	// registered channel before it concludes (the client does not wait itself when it learnt
+	// about the registration from the watcher).
+	for {
+		l.mu.Lock()
+		at := int64(-1)
+		if st := req.Tx.State; st != nil {
+			if c := l.chans[st.ID]; c != nil && !c.concluded && c.reg != nil && l.clock < c.reg.timeout {
+				at = c.reg.timeout
+			}
+			if at < 0 {
+				for id := range subStates {
+					if c := l.chans[id]; c != nil && !c.concluded && c.reg != nil && l.clock < c.reg.timeout {
+						at = c.reg.timeout
+					}
+				}
+			}
+		}
+		l.mu.Unlock()
+		if at < 0 {
+			break
+		}
+		if err := (&Timeout{l, at}).Wait(ctx); err != nil {
+			return fmt.Errorf("waiting for the end of the challenge period: %v", err)
+		}
+	}
 	l.enter()
 	defer l.leave()
 	l.mu.Lock()
